@@ -15,11 +15,14 @@ per case.
   pytapeopsx <toks>    comma separated tokens: step triple, `s=<colour>` (assign tape.scan),
                        `cl<pos>=<val>` / `cr<pos>=<val>` (Tape.set_count, ignored out of range).
   pyrun <lim> | prog   tm.machine.Machine(prog).run(sim_lim=lim); prints
-                       `<kind> steps= cycles= marks= rulapp= blanks=<q:n,..> last=<q,c|-> nonadd= sus= sdr= unk=`
+                       `<kind> steps= cycles= marks= rulapp= blanks=<q:n,..> last=<q,c|-> nonadd= sus= sdr= unk= cap=`
                        nonadd=1: some calculate_diff call of the run returned a non-int operation
                        (multiplicative pair or op sequence), whether or not the rule was applied.
                        sus/sdr/unk: number of SuspectedRule / SecondDiffRule / UnknownRule raised
-                       by calculate_diff.  An exception escaping run() prints `PYEXC:<type>`.
+                       by calculate_diff.  cap=1: Prover.run_simulator was asked for more than
+                       90 000 steps, a delta the Rust prover refuses to simulate (src/prover.rs
+                       try_rule: `delta > 90_000 => None`).  An exception escaping run() prints
+                       `PYEXC:<type>`.
   extrun <lim> | prog  tm.rust_stuff.run_prover(prog, lim) -- the *release* extension the Makefile
                        ships -- in the same format (`EXTPANIC` when it panics).
 """
@@ -27,6 +30,7 @@ import os
 import signal
 import sys
 
+RUST_DELTA_CAP = 90_000
 CASE_TIMEOUT = int(os.environ.get("PYH_CASE_TIMEOUT", "120"))
 
 
@@ -122,6 +126,7 @@ class DiffSpy:
         self.reset()
 
     def reset(self):
+        self.cap = 0
         self.nonadd = 0
         self.sus = 0
         self.sdr = 0
@@ -180,7 +185,7 @@ def op_pyrun(Machine, spy, lim, prog):
     return (
         f"{kind} steps={m.steps} cycles={m.cycles} marks={show_int(m.marks)}"
         f" rulapp={show_int(m.rulapp)} blanks={blanks} last={last}"
-        f" nonadd={nonadd} sus={spy.sus} sdr={spy.sdr} unk={spy.unk}")
+        f" nonadd={nonadd} sus={spy.sus} sdr={spy.sdr} unk={spy.unk} cap={spy.cap}")
 
 
 def op_extrun(run_prover, lim, prog):
@@ -224,6 +229,16 @@ def main():
     assert machine_mod.Tape is Tape
     spy = DiffSpy(rules_mod)
     rules_mod.calculate_diff = spy
+
+    import tm.prover as prover_mod
+    orig_sim = prover_mod.Prover.run_simulator
+
+    def run_simulator(self, steps, state, tape):
+        if steps > RUST_DELTA_CAP:
+            spy.cap = 1
+        return orig_sim(self, steps, state, tape)
+
+    prover_mod.Prover.run_simulator = run_simulator
     signal.signal(signal.SIGALRM, _alarm)
 
     out = sys.stdout
@@ -232,24 +247,26 @@ def main():
         head, _, text = line.partition(" | ")
         parts = head.split(" ")
         op, args = parts[0], parts[1:]
-        signal.alarm(CASE_TIMEOUT)
         try:
-            if op == "pytapeops" and len(args) == 1:
-                res = op_pytapeops(Tape, args[0])
-            elif op == "pytapeopsx" and len(args) == 1:
-                res = op_pytapeopsx(Tape, args[0])
-            elif op == "pyrun" and len(args) == 1:
-                res = op_pyrun(Machine, spy, int(args[0]), text)
-            elif op == "extrun" and len(args) == 1:
-                res = op_extrun(run_prover, int(args[0]), text)
-            else:
-                res = "BAD-OP"
+            try:
+                signal.alarm(CASE_TIMEOUT)
+                if op == "pytapeops" and len(args) == 1:
+                    res = op_pytapeops(Tape, args[0])
+                elif op == "pytapeopsx" and len(args) == 1:
+                    res = op_pytapeopsx(Tape, args[0])
+                elif op == "pyrun" and len(args) == 1:
+                    res = op_pyrun(Machine, spy, int(args[0]), text)
+                elif op == "extrun" and len(args) == 1:
+                    res = op_extrun(run_prover, int(args[0]), text)
+                else:
+                    res = "BAD-OP"
+            finally:
+                signal.alarm(0)
         except CaseTimeout:
+            # also reached when the alarm fires while the inner handlers are running
             res = "PYTIMEOUT"
         except Exception as exc:  # noqa: BLE001
             res = f"PYEXC:{type(exc).__name__}"
-        finally:
-            signal.alarm(0)
         out.write(res + "\n")
     out.flush()
 
